@@ -1131,10 +1131,25 @@ def cast_scalar(x, dtype):
         return x
     if dt.kind in "iu":
         if isinstance(x, Sym):
-            return Sym(z_trunc(x.e))
+            t = z_trunc(x.e)
+            bits = dt.itemsize * 8
+            if bits <= 16:
+                # narrow integer types wrap around (C cast semantics): model it
+                m = 1 << bits
+                t = t % m
+                if dt.kind == "i":
+                    t = z3.If(t >= m // 2, t - m, t)
+            return Sym(t)
         if isinstance(x, SymBool):
             return x._num()
-        return int(x)
+        v = int(x)
+        bits = dt.itemsize * 8
+        if bits <= 16:
+            m = 1 << bits
+            v %= m
+            if dt.kind == "i" and v >= m // 2:
+                v -= m
+        return v
     if dt.kind == "f":
         if isinstance(x, Sym):
             return Sym(_real(x.e))
